@@ -106,6 +106,21 @@ def job(p, nans, cname, mal=0, foreign=False, cap=0, extra=None, wit=None, suffi
                                                     " caller array of %d" % cap if p in ("a", "aaaa") else ""))
 
 
+def oom_jobs(tier):
+    """Allocation number k of the conversion (after the function's own record parse) fails: ARES_ENOMEM with nothing
+    returned, or the complete correct answer."""
+    J = []
+    for p in PARSERS:
+        addr = p in ("a", "aaaa")
+        ks = (1, 2, 3, 4, 5, 6, 7, 8) if p in ("ptr", "ns") else ((1, 2, 3, 4) if (tier != "quick" or p in ("a", "mx", "txt")) else (1, 3))
+        for k in ks:
+            j = job(p, 2, False, cap=2 if addr else 0, extra=(["-DTTL31"] if addr else []) + ["-DM_OOM=%d" % k], suffix="_oom%d" % k)
+            j["witnesses"] = ["end"]
+            j["bound"] += "; allocation number %d after the function's own record parse fails" % k
+            J.append(j)
+    return J
+
+
 def jobs(tier, seed):
     J = []
     for p in PARSERS:
@@ -135,6 +150,7 @@ def jobs(tier, seed):
             for cap in (0, 2):
                 J.append(job(p, 2, True, cap=cap, extra=["-DTTL31"], suffix="_capacity"))
             J.append(job(p, 0, 2))
+    J += oom_jobs(tier)
     J += misc_jobs(tier)
     for j in J:
         j.setdefault("mem_gb", 6)
